@@ -173,3 +173,12 @@ func perLineErr(out []byte, redactF, stripF func([]byte) []byte) string {
 	}
 	return ""
 }
+
+// wfTag attributes a well-formedness failure: a line feed inside an envelope is
+// a C03 violation, broken alternation a C01 violation.
+func wfTag(e string) string {
+	if len(e) >= 9 && e[:9] == "line feed" {
+		return "C03:"
+	}
+	return "C01:"
+}
